@@ -11,9 +11,13 @@ import ArvVerif.Proofs.C13_Sim
 namespace ArvVerif.C13
 open ArvVerif.C08
 
-structure MarkPred (max : Nat) (G : Bytes → Flush → Prop) : Prop where
+/-- what `truncate` needs: nil is fine, cutting the buffer keeps the predicate -/
+structure MarkPred0 (G : Bytes → Flush → Prop) : Prop where
   none : ∀ b, G b Flush.none
   take : ∀ b fl n, G b fl → G (b.take n) fl
+
+/-- what `Write` needs in addition: the marks pruneMemSegments sets are fine -/
+structure MarkPred (max : Nat) (G : Bytes → Flush → Prop) : Prop extends MarkPred0 G where
   fresh : ∀ b i, b.length ≤ max → G b (Flush.pending i b.length)
 
 def AllG (G : Bytes → Flush → Prop) (segs : List Seg) : Prop := ∀ b fl, Seg.mem b fl ∈ segs → G b fl
@@ -52,7 +56,7 @@ theorem AllG.set {a : List Seg} {s : Seg} (h : AllG G a) (hs : AllG G [s]) (i : 
 theorem AllG.get {a : List Seg} (h : AllG G a) {i : Nat} {b : Bytes} {fl : Flush} (hi : a[i]? = some (Seg.mem b fl)) :
     G b fl := h b fl (List.mem_of_getElem? hi)
 
-theorem AllG.single_none (hG : MarkPred max G) (b : Bytes) : AllG G [Seg.mem b Flush.none] := by
+theorem AllG.single_none (hG : MarkPred0 G) (b : Bytes) : AllG G [Seg.mem b Flush.none] := by
   intro x fl hm
   rw [List.mem_singleton] at hm
   cases hm
@@ -64,7 +68,7 @@ theorem AllG.single_stored (loc : Loc) (a b c : Nat) : AllG G [Seg.stored loc a 
   cases hm
 
 /-- `memSegment.Truncate`: the field survives only when the buffer is cut (not grown). -/
-theorem memTruncate_G (hG : MarkPred max G) {buf : Bytes} {fl : Flush} (h : G buf fl) (n : Nat) :
+theorem memTruncate_G (hG : MarkPred0 G) {buf : Bytes} {fl : Flush} (h : G buf fl) (n : Nat) :
     AllG G [memTruncate buf fl n] := by
   intro x fl' hm
   rw [List.mem_singleton] at hm
@@ -82,18 +86,18 @@ theorem memTruncate_G (hG : MarkPred max G) {buf : Bytes} {fl : Flush} (h : G bu
       rw [hz, zeros_zero, List.append_nil] at h1
       rw [h1, h2]; exact hG.take _ _ _ h
 
-theorem memTruncate_new_G (hG : MarkPred max G) (n : Nat) : AllG G [memTruncate [] Flush.none n] :=
+theorem memTruncate_new_G (hG : MarkPred0 G) (n : Nat) : AllG G [memTruncate [] Flush.none n] :=
   memTruncate_G hG (hG.none _) n
 
 /-- `Slice` copies into a fresh buffer: nil. -/
-theorem slice_G (hG : MarkPred max G) (s : Seg) (n : Nat) (len : Option Nat) : AllG G [s.slice n len] := by
+theorem slice_G (hG : MarkPred0 G) (s : Seg) (n : Nat) (len : Option Nat) : AllG G [s.slice n len] := by
   cases s with
   | stored loc size off l =>
     cases len <;> exact AllG.single_stored _ _ _ _
   | mem buf fl =>
     cases len <;> exact AllG.single_none hG _
 
-theorem curFate_G (hG : MarkPred max G) {fn : FileNode} (h : AllG G fn.segs) (cur : Nat) (curSeg : Option Seg)
+theorem curFate_G (hG : MarkPred0 G) {fn : FileNode} (h : AllG G fn.segs) (cur : Nat) (curSeg : Option Seg)
     (cando : Bytes) : AllG G (curFate fn cur curSeg cando).2.2 := by
   unfold curFate
   cases curSeg with
@@ -104,7 +108,7 @@ theorem curFate_G (hG : MarkPred max G) {fn : FileNode} (h : AllG G fn.segs) (cu
     · exact h.drop _
     · exact AllG.cons (slice_G hG _ _ _) (h.drop _)
 
-theorem restrSplit_G (hG : MarkPred max G) {fn : FileNode} (h : AllG G fn.segs) {cur so : Nat} {s : Seg}
+theorem restrSplit_G (hG : MarkPred0 G) {fn : FileNode} (h : AllG G fn.segs) {cur so : Nat} {s : Seg}
     {cando : Bytes} {r : Restr} (hr : restrSplit fn cur so s cando = some r) : AllG G r.segs := by
   unfold restrSplit at hr
   split at hr
@@ -122,7 +126,7 @@ theorem prevApp_mem {segs : List Seg} {cur : Nat} {pb : Bytes} {pfl : Flush}
   obtain ⟨_, h2, _⟩ := prevApp_some h
   exact List.mem_of_getElem? h2
 
-theorem restrShift_G (hG : MarkPred max G) {fn : FileNode} (h : AllG G fn.segs) (cur : Nat) (curSeg : Option Seg)
+theorem restrShift_G (hG : MarkPred0 G) {fn : FileNode} (h : AllG G fn.segs) (cur : Nat) (curSeg : Option Seg)
     (cando : Bytes) : AllG G (restrShift max fn cur curSeg cando).segs := by
   unfold restrShift
   cases hp : prevApp max fn.segs cur with
@@ -134,7 +138,7 @@ theorem restrShift_G (hG : MarkPred max G) {fn : FileNode} (h : AllG G fn.segs) 
     simp only []
     exact AllG.append (AllG.append (h.take _) (memTruncate_G hG (h _ _ (prevApp_mem hp)) _)) (curFate_G hG h _ _ _)
 
-theorem restructure_G (hG : MarkPred max G) {fn : FileNode} (h : AllG G fn.segs) {ptr : Ptr} {p : Bytes} {r : Restr}
+theorem restructure_G (hG : MarkPred0 G) {fn : FileNode} (h : AllG G fn.segs) {ptr : Ptr} {p : Bytes} {r : Restr}
     (hr : restructure max fn ptr p = some r) : AllG G r.segs := by
   unfold restructure at hr
   simp only [] at hr
@@ -175,7 +179,7 @@ theorem pruneSegs_G (hG : MarkPred max G) : ∀ (segs : List Seg) (idx : Nat) (s
       | none =>
         simp only []
         split
-        · refine AllG.cons (AllG.single_none hG _) (ih _ _ hrest ?_)
+        · refine AllG.cons (AllG.single_none hG.toMarkPred0 _) (ih _ _ hrest ?_)
           intro b fl hm
           apply hb b fl
           unfold pruneSegs
@@ -243,7 +247,7 @@ theorem overwrite_G (hG : MarkPred max G) {w w' : WState} {r : Restr} {k : Nat} 
       injection ho with ho1 ho2
       rw [← ho1] at hb ⊢
       simp only [] at hb ⊢
-      have hset : AllG G (r.segs.set r.idx (Seg.mem b' Flush.none)) := h.set (AllG.single_none hG b') r.idx
+      have hset : AllG G (r.segs.set r.idx (Seg.mem b' Flush.none)) := h.set (AllG.single_none hG.toMarkPred0 b') r.idx
       split
       · next hge =>
         simp only [hge, if_true] at hb
@@ -259,7 +263,7 @@ theorem writeStep_G (hG : MarkPred max G) {w w' : WState} {p : Bytes} {k : Nat} 
   | none => rw [hr] at hs; cases hs
   | some r =>
     rw [hr] at hs
-    exact overwrite_G hG (restructure_G hG h hr) hs hb
+    exact overwrite_G hG (restructure_G (max := max) hG.toMarkPred0 h hr) hs hb
 
 theorem wf_mem_le {st : Store} {fn : FileNode} (hwf : WF max hash st fn) :
     ∀ b fl, Seg.mem b fl ∈ fn.segs → b.length ≤ max :=
@@ -286,7 +290,7 @@ theorem writeLoop_G (hinj : Function.Injective hash) (hmax : 1 ≤ max) (hG : Ma
       have h1 : AllG G w1.fn.segs := writeStep_G hG h hstep (wf_mem_le hs.wf)
       exact ih w1 _ _ w' k hs.ok hs.wf hs.pos h1 hl
 
-theorem growLoop_G (hG : MarkPred max G) : ∀ (fuel : Nat) (segs : List Seg) (size target : Nat) (r : List Seg × Nat),
+theorem growLoop_G (hG : MarkPred0 G) : ∀ (fuel : Nat) (segs : List Seg) (size target : Nat) (r : List Seg × Nat),
     AllG G segs → growLoop max fuel segs size target = some r → AllG G r.1 := by
   intro fuel
   induction fuel with
@@ -310,7 +314,7 @@ theorem growLoop_G (hG : MarkPred max G) : ∀ (fuel : Nat) (segs : List Seg) (s
         · exact ih _ _ _ r (AllG.append h.dropLast (memTruncate_G hG (h _ _ hmem) _)) hg
       · exact ih _ _ _ r (AllG.append h (memTruncate_new_G hG _)) hg
 
-theorem truncate_G (hG : MarkPred max G) {fn fn' : FileNode} {n : Nat} (h : AllG G fn.segs)
+theorem truncate_G (hG : MarkPred0 G) {fn fn' : FileNode} {n : Nat} (h : AllG G fn.segs)
     (ht : truncate max fn n = some fn') : AllG G fn'.segs := by
   unfold truncate at ht
   split at ht
@@ -356,7 +360,7 @@ theorem write_G (hinj : Function.Injective hash) (hmax : 1 ≤ max) (hG : MarkPr
       rcases hcase with ⟨_, h2, h3⟩ | ⟨h1, _⟩
       · exact Or.inl ⟨h2, h3, by rw [hqoff, ← htok.wf.size_eq, htok.size_eq]⟩
       · rw [htok.size_eq] at h1; omega
-    exact writeLoop_G hinj hmax hG _ ⟨fn1, q, st⟩ p 0 w k hok htok.wf hpos (truncate_G hG h ht) hw
+    exact writeLoop_G hinj hmax hG _ ⟨fn1, q, st⟩ p 0 w k hok htok.wf hpos (truncate_G (max := max) hG.toMarkPred0 h ht) hw
   · rw [if_neg hgt] at hw
     simp only [] at hw
     obtain ⟨q, hq, hqoff, hqrep, hcase⟩ := seek_spec hwf hptr
